@@ -653,11 +653,11 @@ func (d *detCtx) collectThenSort(encl []ast.Stmt, rs *ast.RangeStmt, slice types
 // Comparator model: a decision over relations between keys K(i) and K(j).
 
 type cmpModel struct {
-	d    *detCtx
-	lit  *ast.FuncLit
-	i, j types.Object
-	keys []string // accessor strings with the index replaced by '#'
-	three bool   // slices.SortFunc style (returns int): not supported
+	d     *detCtx
+	lit   *ast.FuncLit
+	i, j  types.Object
+	keys  []string // accessor strings with the index replaced by '#'
+	three bool     // slices.SortFunc style (returns int): not supported
 }
 
 // accessor renders e with index parameters replaced by '#', returning which index it uses (0 none, 1 i, 2 j, 3 both).
@@ -1205,7 +1205,6 @@ func checkC01(r *Result) {
 	r.minCount("DET-SORT", 3)
 	r.minCount("DET-API", 1)
 }
-
 
 func onlyTelemetryUses(v ssa.Value) bool {
 	refs := v.Referrers()
